@@ -313,6 +313,7 @@ pub fn run(ctx: &mut Ctx, replay: Option<&str>) {
     // iss / iat / exp in clear; TopLevel: one disclosure per top-level member, its value exactly the member's value
     if replay.is_none() {
         let now = crate::imp::now();
+        set_patience(240);
         let big = |n: usize, tag: &str| Value::Object((0..n).map(|i| (format!("{}{:03}", tag, i), match i % 50 { 7 => json!({"in": i, "list": [i, {"x": i}]}), 13 => json!([i, [i]]), _ => json!(i) })).collect());
         let mixed = |n: usize| Value::Array((0..n).map(|i| match i { 0 => json!("first is a scalar"), _ if i % 9 == 2 => json!({"sensor": i, "cal": {"k": [i]}}), _ if i % 13 == 5 => json!([i, {"deep": i}]), _ => json!(i) }).collect());
         let sets: Vec<(&str, Value)> = vec![
@@ -444,6 +445,7 @@ pub fn run(ctx: &mut Ctx, replay: Option<&str>) {
             }
         }
     }
+    set_patience(0);
     let mut reqs = vec![];
     let mut results = vec![];
     for a in &cases {
